@@ -199,6 +199,11 @@ class IntrospectablePass(object):
     def _introspectable_callable_analysis(self, obj, stack):
         if obj.skip:
             return False
+        # The alias analysis ran before callbacks were analysed: an alias
+        # whose target turned out not to be introspectable is not either
+        if isinstance(obj, ast.Alias) and not self._type_is_introspectable(obj.target):
+            obj.introspectable = False
+            return True
         # Propagate introspectability of parameters to entire functions
         if isinstance(obj, ast.Callable):
             for param in obj.parameters:
